@@ -28,6 +28,7 @@ from __future__ import annotations
 
 import ast
 import contextlib
+import copy
 import dataclasses
 import datetime
 import operator
@@ -490,7 +491,14 @@ def strload(val: str | bytes | bytearray | memoryview) -> PythonValueT:
     # The decoder is memoized, so the input must be hashable.
     if isinstance(val, (bytearray, memoryview)):
         val = bytes(val)
-    return _strload(val)
+    loaded = _strload(val)
+    # Never hand out the memoized instance of a mutable value.
+    if loaded.__class__ in _IMMUTABLE_TYPES:
+        return loaded
+    return copy.deepcopy(loaded)
+
+
+_IMMUTABLE_TYPES = frozenset((str, int, float, bool, type(None), bytes))
 
 
 @compat.lru_cache(maxsize=100_000)
